@@ -73,6 +73,8 @@ func tailLines(s string, n int) []string {
 	return l
 }
 
-type hookFunc func(ctx sim.HookCtx)
+type hookObj struct{ f func(ctx sim.HookCtx) }
 
-func (f hookFunc) Func(ctx sim.HookCtx) { f(ctx) }
+func hookFunc(f func(ctx sim.HookCtx)) sim.Hook { return &hookObj{f} }
+
+func (h *hookObj) Func(ctx sim.HookCtx) { h.f(ctx) }
